@@ -1688,6 +1688,21 @@ def unroll_literal_tables(index):
             return [list(r.elts) for r in e.elts]
         return None
 
+    def module_table(f, name):
+        """A module-level name bound exactly once, to a literal table, and never rebound by `global`."""
+        tree = f.module.tree
+        asg = [n for n in tree.body if isinstance(n, ast.Assign) and len(n.targets) == 1 and isinstance(n.targets[0], ast.Name) and
+               n.targets[0].id == name]
+        if len(asg) != 1 or any(isinstance(n, ast.Global) and name in n.names for n in ast.walk(tree)):
+            return None
+        return asg[0].value
+
+    def enum_rows(f, e):
+        """`for x in EnumClass:` visits the members in definition order."""
+        if isinstance(e, ast.Name) and e.id in index.enums and isinstance(index.enums[e.id], dict) and 1 <= len(index.enums[e.id]) <= 12:
+            return [[ast.Attribute(value=ast.Name(id=e.id, ctx=ast.Load()), attr=mname, ctx=ast.Load())] for mname in index.enums[e.id]]
+        return None
+
     for f in index.all_functions():
         binds = {}
         for n in _own_walk(f.node):
@@ -1703,10 +1718,30 @@ def unroll_literal_tables(index):
                 while i < len(blk):
                     st = blk[i]
                     i += 1
+                    if isinstance(st, ast.For) and not st.orelse and isinstance(st.target, ast.Name):
+                        # one name per row: `for x in (a, b, c)` / `for x in EnumClass`
+                        one = enum_rows(f, st.iter)
+                        if one is None and isinstance(st.iter, (ast.Tuple, ast.List)) and 1 <= len(st.iter.elts) <= 12 and \
+                                all(isinstance(x, (ast.Name, ast.Constant, ast.Attribute)) for x in st.iter.elts):
+                            one = [[x] for x in st.iter.elts]
+                        if one is None:
+                            continue
+                        st.target = ast.Tuple(elts=[st.target], ctx=ast.Store())
+                        st.iter = ast.Tuple(elts=[ast.Tuple(elts=r, ctx=ast.Load()) for r in one], ctx=ast.Load())
                     if not (isinstance(st, ast.For) and not st.orelse and isinstance(st.target, ast.Tuple) and
                             all(isinstance(t, ast.Name) for t in st.target.elts)):
                         continue
+                    # a leading `if c: continue` guards the rest of the body
+                    while st.body and isinstance(st.body[0], ast.If) and not st.body[0].orelse and len(st.body[0].body) == 1 and \
+                            isinstance(st.body[0].body[0], ast.Continue) and len(st.body) > 1 and \
+                            not any(isinstance(x, (ast.Break, ast.Continue)) for b in st.body[1:] for x in ast.walk(b)):
+                        g_ = st.body[0]
+                        st.body = [ast.copy_location(ast.If(test=ast.UnaryOp(op=ast.Not(), operand=g_.test), body=st.body[1:], orelse=[]), g_)]
                     rows, via = table_of(st.iter), None
+                    if rows is None and isinstance(st.iter, ast.Name) and st.iter.id not in binds and st.iter.id not in f.params:
+                        mt = module_table(f, st.iter.id)
+                        if mt is not None:
+                            rows = table_of(mt)
                     if rows is None and isinstance(st.iter, ast.Name) and len(binds.get(st.iter.id, ())) == 1:
                         rows, via = table_of(binds[st.iter.id][0].value), st.iter.id
                         uses = [n for n in ast.walk(f.node) if isinstance(n, ast.Name) and n.id == via and isinstance(n.ctx, ast.Load)]
@@ -1754,6 +1789,173 @@ def unroll_literal_tables(index):
                     done[f.site] = done.get(f.site, 0) + 1
         if changed:
             ast.fix_missing_locations(f.node)
+    return done
+
+
+# ---- enumeration members compared with each other --------------------------------------------------------------------------------
+def fold_enum_constants(index):
+    """After a loop over an enumeration (or a table of members) has been unrolled, its body compares *constants*: `Feature.ERR ==
+    Feature.RTY` is False, `Feature.ERR in (Feature.ERR, Feature.RTY)` is True, `Feature.ERR.value` is "err".  Such tests are
+    folded, `if` statements with a constant test keep the arm that runs, `not (a not in b)` is `a in b`."""
+    done = {}
+
+    def member(e):
+        if isinstance(e, ast.Attribute) and isinstance(e.value, ast.Name) and isinstance(index.enums.get(e.value.id), dict) and \
+                e.attr in index.enums[e.value.id]:
+            return (e.value.id, e.attr)
+        return None
+
+    class F(ast.NodeTransformer):
+        def __init__(self):
+            self.n = 0
+
+        def visit_Attribute(self, node):
+            self.generic_visit(node)
+            if node.attr == "value" and isinstance(node.ctx, ast.Load):
+                m_ = member(node.value)
+                if m_ is not None:
+                    v = index.enums[m_[0]][m_[1]]
+                    if isinstance(v, (str, int)) and not isinstance(v, bool):
+                        self.n += 1
+                        return ast.copy_location(ast.Constant(value=v), node)
+            return node
+
+        def visit_Compare(self, node):
+            self.generic_visit(node)
+            if len(node.ops) != 1:
+                return node
+            a, op, b = member(node.left), node.ops[0], node.comparators[0]
+            if a is not None and member(b) is not None and isinstance(op, (ast.Eq, ast.NotEq, ast.Is, ast.IsNot)):
+                same = a == member(b)
+                self.n += 1
+                return ast.copy_location(ast.Constant(value=same if isinstance(op, (ast.Eq, ast.Is)) else not same), node)
+            if a is not None and isinstance(op, (ast.In, ast.NotIn)) and isinstance(b, (ast.Tuple, ast.List, ast.Set)) and b.elts and \
+                    all(member(x) is not None for x in b.elts):
+                inside = any(member(x) == a for x in b.elts)
+                self.n += 1
+                return ast.copy_location(ast.Constant(value=inside if isinstance(op, ast.In) else not inside), node)
+            return node
+
+        def visit_UnaryOp(self, node):
+            self.generic_visit(node)
+            if isinstance(node.op, ast.Not):
+                o = node.operand
+                if isinstance(o, ast.Constant) and isinstance(o.value, bool):
+                    return ast.copy_location(ast.Constant(value=not o.value), node)
+                if isinstance(o, ast.Compare) and len(o.ops) == 1 and isinstance(o.ops[0], ast.NotIn):
+                    return ast.copy_location(ast.Compare(left=o.left, ops=[ast.In()], comparators=o.comparators), node)
+            return node
+
+        def visit_BoolOp(self, node):
+            self.generic_visit(node)
+            is_or = isinstance(node.op, ast.Or)
+            vals = []
+            for v in node.values:
+                if isinstance(v, ast.Constant) and isinstance(v.value, bool):
+                    if v.value == is_or:
+                        return ast.copy_location(ast.Constant(value=is_or), node)      # True in an `or`, False in an `and`
+                    continue
+                vals.append(v)
+            if not vals:
+                return ast.copy_location(ast.Constant(value=not is_or), node)
+            if len(vals) == 1:
+                return vals[0]
+            node.values = vals
+            return node
+
+    def prune(stmts):
+        out = []
+        for st in stmts:
+            for fld in ("body", "orelse", "finalbody"):
+                b = getattr(st, fld, None)
+                if isinstance(b, list) and b and isinstance(b[0], ast.stmt) and not isinstance(st, (ast.FunctionDef, ast.ClassDef)):
+                    setattr(st, fld, prune(b) or ([ast.copy_location(ast.Pass(), st)] if fld == "body" else []))
+            if isinstance(st, ast.If) and isinstance(st.test, ast.Constant) and isinstance(st.test.value, bool):
+                out.extend(st.body if st.test.value else st.orelse)
+            else:
+                out.append(st)
+        return out
+    for f in index.all_functions():
+        t = F()
+        t.visit(f.node)
+        if t.n:
+            f.node.body = prune(f.node.body) or [ast.Pass()]
+            ast.fix_missing_locations(f.node)
+            done[f.site] = t.n
+    return done
+
+
+# ---- D.update(<pairs>) ------------------------------------------------------------------------------------------------------------
+def desugar_update_generators(index):
+    """`D.update((K, V) for T in S if C)` as a statement (also with a list / dict comprehension `{K: V for ...}`) stores the pairs one
+    by one, in order: `for T in S: if C: D[K] = V`."""
+    import copy
+    done = {}
+    for f in index.all_functions():
+        k = 0
+        # {..., **{K: V for x in (a, b, c)}, ...}: the comprehension over a literal display, entry by entry
+        for d in [n for n in ast.walk(f.node) if isinstance(n, ast.Dict)]:
+            keys, vals = [], []
+            hit = False
+            for kk, vv in zip(d.keys, d.values):
+                if kk is None and isinstance(vv, ast.DictComp) and len(vv.generators) == 1 and not vv.generators[0].ifs and \
+                        isinstance(vv.generators[0].target, ast.Name) and isinstance(vv.generators[0].iter, (ast.Tuple, ast.List)) and \
+                        1 <= len(vv.generators[0].iter.elts) <= 12 and \
+                        all(isinstance(x, (ast.Constant, ast.Name, ast.Attribute)) for x in vv.generators[0].iter.elts):
+                    var = vv.generators[0].target.id
+                    for x in vv.generators[0].iter.elts:
+                        sub = _Subst({var: x}, {})
+                        keys.append(sub.visit(copy.deepcopy(vv.key)))
+                        vals.append(sub.visit(copy.deepcopy(vv.value)))
+                    hit = True
+                else:
+                    keys.append(kk)
+                    vals.append(vv)
+            if hit:
+                d.keys, d.values = keys, vals
+                k += 1
+        for owner in list(ast.walk(f.node)):
+            for fld in ("body", "orelse", "finalbody"):
+                blk = getattr(owner, fld, None)
+                if not isinstance(blk, list):
+                    continue
+                for i, st in enumerate(list(blk)):
+                    if not (isinstance(st, ast.Expr) and isinstance(st.value, ast.Call) and isinstance(st.value.func, ast.Attribute) and
+                            st.value.func.attr == "update" and len(st.value.args) == 1 and not st.value.keywords):
+                        continue
+                    g = st.value.args[0]
+                    if isinstance(g, (ast.GeneratorExp, ast.ListComp)) and isinstance(g.elt, ast.Tuple) and len(g.elt.elts) == 2:
+                        key, val = g.elt.elts
+                    elif isinstance(g, ast.DictComp):
+                        key, val = g.key, g.value
+                    else:
+                        continue
+                    if len(g.generators) != 1 or g.generators[0].is_async:
+                        continue
+                    gen = g.generators[0]
+                    if not isinstance(gen.iter, (ast.Name, ast.Tuple, ast.List)):
+                        continue                        # only tables; views of dictionaries etc. are read by the rules themselves
+                    bound = {n.id for n in ast.walk(gen.target) if isinstance(n, ast.Name)}
+                    inside = {id(n) for n in ast.walk(g)}
+                    if any(isinstance(n, ast.Name) and n.id in bound and id(n) not in inside for n in ast.walk(f.node)):
+                        continue
+                    body = [ast.Assign(targets=[ast.Subscript(value=st.value.func.value, slice=key, ctx=ast.Store())], value=val)]
+                    for cond in reversed(gen.ifs):
+                        body = [ast.If(test=cond, body=body, orelse=[])]
+                    loop = ast.For(target=gen.target, iter=gen.iter, body=body, orelse=[], type_comment=None)
+                    ast.copy_location(loop, st)
+                    for n in ast.walk(loop):
+                        if isinstance(n, ast.Name) and n.id in bound and isinstance(n.ctx, ast.Load) and False:
+                            pass
+                    # the comprehension's targets are stores now
+                    for n in ast.walk(loop.target):
+                        if isinstance(n, (ast.Name, ast.Tuple, ast.List)):
+                            n.ctx = ast.Store()
+                    blk[blk.index(st)] = loop
+                    k += 1
+        if k:
+            ast.fix_missing_locations(f.node)
+            done[f.site] = k
     return done
 
 
